@@ -42,7 +42,15 @@ def run(ctx):
     nmax = ctx.n(40, 150)
     jobs = []   # each: dict(desc, exprs=[...], compare=callable(results)->None)
     for ci in range(N):
-        f = F.gen_forest(rng, 1, nmax)
+        # node id 0 is a valid id (and a falsy one): a quarter of the cases carry it, mostly near the root so that it lies on walks to the root
+        f = F.gen_forest(rng, 1, nmax, labelling='sparse0' if rng.random() < 0.25 else None)
+        if f['labelling'] == 'sparse0' and rng.random() < 0.7:
+            roots_ = [i_ for i_, p_ in zip(f['ids'], f['parents']) if p_ < 0]
+            kids_ = [i_ for i_, p_ in zip(f['ids'], f['parents']) if p_ in roots_]
+            tgt_ = int((roots_ + kids_)[int(rng.integers(len(roots_ + kids_)))])
+            m_ = {0: tgt_, tgt_: 0}
+            f['ids'] = [m_.get(i_, i_) for i_ in f['ids']]
+            f['parents'] = [m_.get(p_, p_) if p_ >= 0 else -1 for p_ in f['parents']]
         cn = F.gen_connectors(rng, f)
         ids = f['ids']
         tagmap = {}
